@@ -57,7 +57,7 @@ def generate(rng, tier):
         "crop": 3, "pad": 3, "mask_arr": 2, "mask_r": 2, "fill": 1, "spike_clip": 2,
         "remove_piston": 2, "remove_tiptilt": 2, "remove_power": 2, "recenter": 2,
         "latcal": 3, "strip_latcal": 2, "filter": 1,
-        "read": 8, "copy": 1, "slices": 1, "stats": 1, "precision": 1,
+        "read": 8, "copy": 1, "slices": 1, "stats": 1, "precision": 1, "poison": 1,
     }
     enabled = {k: w for k, w in kinds.items() if rng.random() < 0.7 or k == "read"}
     if not any(k in enabled for k in MUTATORS):
@@ -104,6 +104,9 @@ def generate(rng, tier):
                 op = {"op": "filter", "typ": typ, "fc": rng.uniform(0.05, 0.9)}
         elif k == "precision":
             op = {"op": "precision", "bits": rng.choice([32, 64])}
+        elif k == "poison":
+            # a step that is given nonsense and (today) fails: whatever it leaves behind must be coherent
+            op = {"op": "poison", "kind": rng.choice(["pad_smaller", "mask_badshape", "filter_badtype", "pad_both"])}
         else:
             op = {"op": k}
         ops.append(op)
@@ -261,6 +264,21 @@ def execute(plan):
                     snap = {w: (None if getattr(orig, "_" + w, None) is None else np.array(getattr(orig, "_" + w)))
                             for w in "xyrt"}
                     shadows.append((i, orig, m0, orig.data.copy(), snap))
+            elif k == "poison":
+                bump(faults, "poison_step")
+                pk = op["kind"]
+                if pk == "pad_smaller":
+                    ifg.pad(shape=(max(ifg.data.shape[0] - 1, 0), ifg.data.shape[1]))
+                elif pk == "mask_badshape":
+                    ifg.mask(np.ones((ifg.data.shape[0] + 1, ifg.data.shape[1] + 2), dtype=bool))
+                elif pk == "filter_badtype":
+                    ifg.filter(0.1, "no-such-filter")
+                else:
+                    ifg.pad(samples=1, shape=3)
+                # not raising is fine too (a future version may accept it); then the model follows the object
+                mdl.shape = tuple(ifg.data.shape)
+                mdl.valid = ~np.isnan(ifg.data)
+                mdl.dx = float(ifg.dx)
             elif k == "precision":
                 if config.precision != (np.float32 if op["bits"] == 32 else np.float64):
                     bump(faults, "precision_flip")
